@@ -174,6 +174,20 @@ impl Driver for C07 {
                     forced = Some((i, k));
                 }
             }
+            // a legitimately tiny coefficient on a variable with a huge range: the term matters (1e-10 * 1e12 = 100)
+            let mut tiny: Option<(usize, usize, f64)> = None;
+            if forced.is_none() && rng.gen_bool(0.08) {
+                let nums: Vec<usize> = (0..m.n()).filter(|i| !matches!(m.types[*i], VT::Bool)).collect();
+                if nums.len() >= 2 {
+                    let (y, x) = (nums[0], nums[1]);
+                    let c = [1e-10, 2.5e-10, 5e-11][rng.gen_range(0..3)];
+                    m.types[x] = VT::Real(0.0, 1e12);
+                    m.types[y] = VT::Real(-1000.0, 1000.0);
+                    // y - c*x <= 5 (the tiny term is not the leftmost one)
+                    m.cons.push(Con { name: None, kind: CKind::Cmp(E::sub(E::Var(y), E::mul(E::Num(c), E::Var(x))), Cmp::Le, E::Num(5.0)) });
+                    tiny = Some((y, x, c));
+                }
+            }
             let mut prng = unit_rng(ctx, "C07p", out.unit * 1000 + case);
             if only.is_some_and(|o| o != case) {
                 continue;
@@ -194,7 +208,19 @@ impl Driver for C07 {
                 }
                 pts.extend(extra);
             }
+            if let Some((y, x, c)) = tiny {
+                // points with x at the far end of its range and y just inside the row
+                let mut extra: Vec<Vec<Q>> = pts.iter().take(20).cloned().collect();
+                for (n, p) in extra.iter_mut().enumerate() {
+                    p[x] = q(1e12).unwrap();
+                    p[y] = q(5.0 + c * 1e12 - 1.0 - n as f64).unwrap();
+                }
+                pts.extend(extra);
+            }
             let feasible_pts: Vec<&Vec<Q>> = pts.iter().filter(|p| m.feasible(p, &zero()) == Feas::Yes).collect();
+            if tiny.is_some() && !feasible_pts.is_empty() {
+                out.tag("tiny-coefficient-huge-range:feasible-point");
+            }
             if let Some((i, k)) = forced {
                 if feasible_pts.iter().any(|p| p[i] == qi(k as i64)) {
                     out.tag("inexact-integer-bound:tight-point-feasible");
@@ -350,7 +376,7 @@ impl Driver for C07 {
         }
     }
     fn rule(&self) -> String {
-        "G-model models (all strata, plus chains x_i*k <= x_{i+1} + c with k in {1.9, 3, 7, -2} that need several revisits and make propagated bounds inexact; in 20% of the cases an integer variable gets a row c*x <= r or c*x >= r from a table of (c, k) pairs for which the row holds at x = k in exact arithmetic while r/c or r*(1/c) lands an ulp on the wrong side of k in floating point, and the point x = k is added to the sampled assignments); (a) every published range of the compiled linear model must contain the variable's value at every exactly source-feasible sampled assignment, and for affine models the certified true minimum/maximum of the variable; (b) through hook H1, with full propagation and with max_steps in {0,1,2,5,50}: the derived range of every variable contains those values, and bounds_of(e) of every sub-expression contains the exact value of e at points of the derived box (corners, midpoints, thirds, integer points, +-1e6 in unbounded directions); ranges are never NaN. non-trivial = model with at least one source-feasible sampled assignment".into()
+        "G-model models (all strata, plus chains x_i*k <= x_{i+1} + c with k in {1.9, 3, 7, -2} that need several revisits and make propagated bounds inexact; in 20% of the cases an integer variable gets a row c*x <= r or c*x >= r from a table of (c, k) pairs for which the row holds at x = k in exact arithmetic while r/c or r*(1/c) lands an ulp on the wrong side of k in floating point, and the point x = k is added to the sampled assignments; in 8% a row y - c*x <= 5 with c around 1e-10 and x in [0, 1e12], with sample points at x = 1e12); (a) every published range of the compiled linear model must contain the variable's value at every exactly source-feasible sampled assignment, and for affine models the certified true minimum/maximum of the variable; (b) through hook H1, with full propagation and with max_steps in {0,1,2,5,50}: the derived range of every variable contains those values, and bounds_of(e) of every sub-expression contains the exact value of e at points of the derived box (corners, midpoints, thirds, integer points, +-1e6 in unbounded directions); ranges are never NaN. non-trivial = model with at least one source-feasible sampled assignment".into()
     }
     fn thresholds(&self, tier: Tier) -> Thresholds {
         let s = tier.pick(6, 80);
@@ -363,6 +389,7 @@ impl Driver for C07 {
                 ("propagation-stopped-at-limit", 500 * s),
                 ("analysis-detected-infeasible", 200 * s),
                 ("inexact-integer-bound:tight-point-feasible", 100 * s),
+                ("tiny-coefficient-huge-range:feasible-point", 20 * s),
             ],
             min_nontrivial: 1000 * s,
         }
@@ -462,6 +489,46 @@ pub fn wellformed(lm: &rooc::LinearModel, src: Option<&M>) -> Vec<(String, Strin
     bad
 }
 
+/// The model with every division by a power of two written as a multiplication by its reciprocal.
+fn div_twin(m: &M) -> Option<M> {
+    fn rw(e: &E, changed: &mut bool) -> E {
+        let r = |x: &E, ch: &mut bool| Box::new(rw(x, ch));
+        match e {
+            E::Div(a, c) => match &**c {
+                E::Num(k) if *k != 0.0 && k.is_finite() && (1.0 / k) * k == 1.0 && 1.0 / (1.0 / k) == *k && k.abs().log2().fract() == 0.0 => {
+                    *changed = true;
+                    E::Mul(r(a, changed), Box::new(E::Num(1.0 / k)))
+                }
+                _ => E::Div(r(a, changed), r(c, changed)),
+            },
+            E::Num(_) | E::Var(_) => e.clone(),
+            E::Abs(a) => E::Abs(r(a, changed)),
+            E::Not(a) => E::Not(r(a, changed)),
+            E::Neg(a) => E::Neg(r(a, changed)),
+            E::Min(xs) => E::Min(xs.iter().map(|x| rw(x, changed)).collect()),
+            E::Max(xs) => E::Max(xs.iter().map(|x| rw(x, changed)).collect()),
+            E::And(xs) => E::And(xs.iter().map(|x| rw(x, changed)).collect()),
+            E::Or(xs) => E::Or(xs.iter().map(|x| rw(x, changed)).collect()),
+            E::Xor(a, c) => E::Xor(r(a, changed), r(c, changed)),
+            E::Implies(a, c) => E::Implies(r(a, changed), r(c, changed)),
+            E::Iff(a, c) => E::Iff(r(a, changed), r(c, changed)),
+            E::Add(a, c) => E::Add(r(a, changed), r(c, changed)),
+            E::Sub(a, c) => E::Sub(r(a, changed), r(c, changed)),
+            E::Mul(a, c) => E::Mul(r(a, changed), r(c, changed)),
+        }
+    }
+    let mut changed = false;
+    let mut t = m.clone();
+    t.obj = rw(&m.obj, &mut changed);
+    for c in t.cons.iter_mut() {
+        c.kind = match &c.kind {
+            CKind::Cmp(l, cmp, r) => CKind::Cmp(rw(l, &mut changed), *cmp, rw(r, &mut changed)),
+            CKind::Assert(e) => CKind::Assert(rw(e, &mut changed)),
+        };
+    }
+    if changed { Some(t) } else { None }
+}
+
 fn hostile_model(rng: &mut ChaCha8Rng) -> M {
     let stratum = STRATA[rng.gen_range(0..STRATA.len())];
     let mut m = gen_model(rng, stratum);
@@ -551,6 +618,25 @@ impl Driver for C08 {
             }
             out.case = case;
             out.eval();
+            // whether an exact lowering is needed (and hence whether missing bounds are an error) may not
+            // depend on how a constant scale is written: e / c against e * (1/c), c a power of two
+            if let Some(twin) = div_twin(&m) {
+                let class = |c: &Compiled| match c {
+                    Compiled::Ok(_) => "ok".to_string(),
+                    Compiled::Rejected(e) => lin_err_kind(e).to_string(),
+                    Compiled::Panicked(_) => "panic".to_string(),
+                };
+                let (a, b_) = (class(&compile_m(&m)), class(&compile_m(&twin)));
+                out.tag("division-twin-compared");
+                if a != b_ && (a == "MissingFiniteBounds" || b_ == "MissingFiniteBounds") {
+                    out.violation(
+                        "missing-bounds-error-depends-on-the-spelling-of-a-scale",
+                        &format!("with 'e / c' the model is {a}, with 'e * (1/c)' it is {b_}"),
+                        json!({"model": m.show(), "twin": twin.show()}),
+                    );
+                    continue;
+                }
+            }
             match compile_m(&m) {
                 Compiled::Ok(lm) => {
                     out.tag(if hostile { "compiled:hostile" } else { "compiled:regular" });
@@ -638,7 +724,7 @@ impl Driver for C08 {
         }
     }
     fn rule(&self) -> String {
-        "G-model models (two thirds regular, one third hostile: Infinity/-Infinity constants in comparison position, inside sums and under max, Infinity-Infinity in rows and objective; user variables named $abs_0, $min_0_select_1, ...; duplicate and generated-looking constraint names c, c__2, cap__3; unbounded declarations under exact abs/min/max; empty min/max/all/any); every compiled linear model is checked by the well-formedness monitor (sorted duplicate-free variable list == domain keys, source variables present, one coefficient per variable, all numbers finite, unique row names derived from user names with the first use preserved, auxiliaries carry the reserved $ prefix; a model with $-named user variables that compiles must have as many columns and rows as its twin with neutral names); every MissingFiniteBounds error must name variables whose derived range (hook H1) is really non-finite. non-trivial = compiled well-formed model or justified missing-bounds error".into()
+        "G-model models (two thirds regular, one third hostile: Infinity/-Infinity constants in comparison position, inside sums and under max, Infinity-Infinity in rows and objective; user variables named $abs_0, $min_0_select_1, ...; duplicate and generated-looking constraint names c, c__2, cap__3; unbounded declarations under exact abs/min/max; empty min/max/all/any); every compiled linear model is checked by the well-formedness monitor (sorted duplicate-free variable list == domain keys, source variables present, one coefficient per variable, all numbers finite, unique row names derived from user names with the first use preserved, auxiliaries carry the reserved $ prefix; a model with $-named user variables that compiles must have as many columns and rows as its twin with neutral names); every MissingFiniteBounds error must name variables whose derived range (hook H1) is really non-finite; a model with a division by a power of two and its twin written with the reciprocal product must both or neither fail with MissingFiniteBounds. non-trivial = compiled well-formed model or justified missing-bounds error".into()
     }
     fn thresholds(&self, tier: Tier) -> Thresholds {
         let s = tier.pick(40, 400);
@@ -650,6 +736,7 @@ impl Driver for C08 {
                 ("deduplicated-row-name", 100 * s),
                 ("rejected:EmptyAggregation", 50 * s),
                 ("auxiliary-named-user-variable:compared-with-neutral-twin", 100 * s),
+                ("division-twin-compared", 500 * s),
             ],
             min_nontrivial: 3000 * s,
         }
